@@ -687,6 +687,7 @@ func runCase(c ccase) (out cres) {
 	}
 
 	// Scenario-specific clauses about who gets new work.
+	lostAgain := "" // "stopped": a later task was lost over and over although every remaining machine is alive
 	switch c.Scenario {
 	case "probation":
 		// The machine that answered 500 must now be on probation (timeout 1h) and
@@ -760,6 +761,9 @@ func runCase(c ccase) (out cres) {
 			o, ok := wait(runAsync(bg, fMap1, "ok"), runWatchdog)
 			if !ok || o.err != nil {
 				out.Notes = append(out.Notes, fmt.Sprintf("follow-up run %d: hung=%v err=%v", i, !ok, o.err))
+				if o.err != nil && strings.Contains(o.err.Error(), "consecutive attempts") {
+					lostAgain = o.err.Error()
+				}
 				break
 			}
 		}
@@ -786,6 +790,10 @@ func runCase(c ccase) (out cres) {
 		case po.err != nil:
 			out.ProbeErr = po.err.Error()
 			out.Notes = append(out.Notes, "probe returned an error (not a statement about capacity): "+out.ProbeErr)
+			if strings.Contains(out.ProbeErr, "consecutive attempts") {
+				lostAgain = out.ProbeErr
+			}
+			getGate(gname("probe")).open() // let go of probe tasks that still wait for the failed one
 		default:
 			out.ProbeOK = true
 		}
@@ -797,6 +805,12 @@ func runCase(c ccase) (out cres) {
 		if len(hits) > 0 {
 			viol("work-offered-to-stopped-machine", fmt.Sprintf("%s stopped and the manager had marked it lost; afterwards it received %v", out.FiredHost, hits))
 		}
+		// bigmachine fails calls to a stopped machine without an RPC, so an offer of
+		// the stopped machine shows as a task that is lost at once, again and again,
+		// although the fault window is closed and all other machines are alive.
+		if lostAgain != "" {
+			viol("work-offered-to-stopped-machine", fmt.Sprintf("%s stopped, the manager marked it lost, no further fault; a later task was nevertheless lost repeatedly: %s; machines %+v", out.FiredHost, lostAgain, exec.VerifC14Machines(sess)))
+		}
 	}
 
 	// Phase 4: the books at the end.
@@ -805,9 +819,12 @@ func runCase(c ccase) (out cres) {
 		for {
 			out.FinalViews, out.FinalQueue = exec.VerifC14Machines(sess), exec.VerifC14Queued(sess)
 			_, nz := sumProcs(out.FinalViews)
-			if (!nz && sumInts(out.FinalQueue) == 0 && atomic.LoadInt32(&sys.inflight) == 0) || time.Now().After(dl) {
-				if nz {
-					viol("procs-not-returned", fmt.Sprintf("at the end of the case (exit path %s, probe done): %+v", out.Path, out.FinalViews))
+			inflight := atomic.LoadInt32(&sys.inflight)
+			if (!nz && sumInts(out.FinalQueue) == 0 && inflight == 0) || time.Now().After(dl) {
+				if nz && inflight != 0 {
+					out.Inconclusive = fmt.Sprintf("%d Compile/Run/CommitCombiner RPCs still in flight %v after the probe", inflight, quiesceWait)
+				} else if nz {
+					viol("procs-not-returned", fmt.Sprintf("at the end of the case (exit path %s, probe done, no RPC in flight): %+v", out.Path, out.FinalViews))
 				}
 				break
 			}
